@@ -224,3 +224,59 @@ def check_settings_not_rebound(ctx, names, rule='R-FWD/setting-not-rebound',
                    f'function was given: from here on the run uses '
                    'another value than the one it was asked to use')
     return n
+
+
+CONFIGURED = {
+    # callee keyword -> path below `config` it has to be, symbolically
+    'n_processors': ('type_assignment', 'n_processors'),
+    'chunk_size': ('type_assignment', 'chunk_size'),
+    'bootstrap_iteration': ('type_assignment', 'bootstrap_iteration'),
+    'normalization': ('type_assignment', 'normalization'),
+    'min_markers': ('type_assignment', 'min_markers'),
+    'max_gb': ('max_gb',),
+}
+
+
+def check_config_settings_as_requested(
+        ctx, names, fn_qual='cli.from_specified_markers:_run_mapping',
+        rule='R-FWD/config-as-requested'):
+    """the mapping front end hands the stages the settings of the run as
+    they stand in the configuration: the symbolic value of each such
+    keyword argument is exactly `config[...][name]` on every path -- no
+    second alternative, no default, no adjustment computed from the data
+    in between (the record written to the outputs is the configuration,
+    and the property quantifies over what was asked for)."""
+    from ..core.defuse import Expander, fmt_term
+    db = ctx.db
+    fi = db.fn(fn_qual)
+    ctx.touch(fi)
+    cfg = cfg_of(fi)
+    rd = rd_of(fi)
+    ex = Expander(fi)
+    n = 0
+    for node in cfg.nodes:
+        if node.id not in rd.live:
+            continue
+        for c in cfg.calls_in(node):
+            t = resolve_callee(db, fi, c)
+            if not isinstance(t, FunctionInfo):
+                continue
+            for kw in c.keywords:
+                if kw.arg not in names or kw.arg not in CONFIGURED \
+                        or kw.arg not in t.params:
+                    continue
+                want = ('param', 'config')
+                for k in CONFIGURED[kw.arg]:
+                    want = ('sub', want, ('const', repr(k)))
+                term = ex.expand(kw.value, node.id)
+                n += 1
+                ok = term == want
+                ctx.ob(rule, f'{fi.name}:{t.name}:{kw.arg}', fi.loc(c), ok,
+                       f'`{kw.arg}` is the configured value' if ok else
+                       f'`{kw.arg}={unparse(kw.value)[:30]}` handed to '
+                       f'{t.name} is {fmt_term(term)[:80]}, not the '
+                       'configured '
+                       + ''.join(f"[{k!r}]" for k in CONFIGURED[kw.arg])
+                       + ': on some path the stage runs with a setting '
+                       'that was not asked for')
+    return n
